@@ -1,0 +1,251 @@
+//go:build verif
+
+// Machine-checked contracts for package tchannel (read by /verif/govc; this
+// file contains only comments and adds no declarations to the package).
+
+package tchannel
+
+// ===========================================================================
+// frame.go -- 16-byte frame header, frame buffers (C06, C03)
+// Layout (protocol document): size:2 type:1 reserved:1 id:4 reserved:8
+// ===========================================================================
+
+// FrameOK: the three slices of a frame alias one buffer the way NewFrame
+// builds it. FrameFull additionally says the payload has the full protocol
+// capacity, which is what every pool implementation in the library provides.
+//@ pred FrameOK(f *Frame) := f != nil && f.buffer != nil && len(f.buffer) >= 16 &&
+//@        arr(f.Payload) == arr(f.buffer) && off(f.Payload) == off(f.buffer) + 16 && len(f.Payload) == len(f.buffer) - 16 &&
+//@        arr(f.headerBuffer) == arr(f.buffer) && off(f.headerBuffer) == off(f.buffer) && len(f.headerBuffer) == 16
+//@ pred FrameFull(f *Frame) := FrameOK(f) && len(f.Payload) == 65519
+
+//@ func (fh *FrameHeader) SetPayloadSize(size uint16)
+//@   modifies fh.size
+//@   ensures size <= 65519 ==> fh.size == size + 16
+//@   ensures fh.size == uint16(size + 16)
+//@   property C01 C06
+
+//@ func (fh FrameHeader) PayloadSize() (n uint16)
+//@   ensures n == uint16(fh.size - 16)
+//@   ensures fh.size >= 16 ==> n == fh.size - 16
+//@   property C03 C06
+
+//@ func (fh FrameHeader) FrameSize() (n uint16)
+//@   ensures n == fh.size
+//@   property C06
+
+//@ func (fh *FrameHeader) read(r *typed.ReadBuffer) (err error)
+//@   modifies fh.size, fh.messageType, fh.reserved1, fh.ID, r.remaining, r.err
+//@   ensures err == r.err
+//@   ensures old(r.err) == nil && len(old(r.remaining)) >= 16 ==> err == nil &&
+//@             fh.size == be16(old(r.remaining), 0) && fh.messageType == u8at(old(r.remaining), 2) &&
+//@             fh.reserved1 == u8at(old(r.remaining), 3) && fh.ID == be32(old(r.remaining), 4) &&
+//@             r.remaining == old(r.remaining)[16:]
+//@   ensures old(r.err) == nil && len(old(r.remaining)) < 16 ==> err == typed.ErrEOF
+//@   property C03 C06
+
+//@ func (fh *FrameHeader) write(w *typed.WriteBuffer) (err error)
+//@   modifies w.remaining, w.err, elems(w.remaining)
+//@   ensures typed.Suffix(w.remaining, old(w.remaining))
+//@   ensures err == w.err
+//@   ensures old(w.err) == nil && len(old(w.remaining)) >= 16 ==> err == nil && w.remaining == old(w.remaining)[16:] &&
+//@             be16(old(w.remaining), 0) == fh.size && u8at(old(w.remaining), 2) == fh.messageType &&
+//@             u8at(old(w.remaining), 3) == fh.reserved1 && be32(old(w.remaining), 4) == fh.ID
+//@   ensures old(w.err) == nil && len(old(w.remaining)) < 16 ==> err != nil
+//@   property C06
+
+//@ func NewFrame(payloadCapacity int) (f *Frame)
+//@   requires 0 <= payloadCapacity && payloadCapacity <= 65519
+//@   ensures fresh(f) && FrameOK(f) && len(f.Payload) == payloadCapacity
+//@   property C06 C03
+
+//@ func (f *Frame) SizedPayload() (p []byte)
+//@   requires FrameOK(f) && f.Header.size >= 16 && f.Header.size - 16 <= len(f.Payload)
+//@   ensures p == f.Payload[:f.Header.size - 16]
+//@   property C03 C06
+
+// ReadBody: header sizes below 16 wrap to a payload size above the maximum and
+// are rejected; otherwise exactly size-16 payload bytes are requested.
+//@ func (f *Frame) ReadBody(header []byte, r io.Reader) (err error)
+//@   requires FrameFull(f) && r != nil && arr(header) != arr(f.buffer)
+//@   modifies f.Header.size, f.Header.messageType, f.Header.reserved1, f.Header.ID, elems(f.buffer)
+//@   ensures len(header) >= 16 && (be16(old(header), 0) < 16) ==> err != nil
+//@   ensures len(header) < 16 ==> err != nil
+//@   ensures err == nil ==> len(header) >= 16 && f.Header.size >= 16 && f.Header.size == old(be16(header, 0)) &&
+//@             f.Header.messageType == old(u8at(header, 2)) && f.Header.ID == old(be32(header, 4))
+//@   property C03 C06
+
+//@ func (f *Frame) messageType() (t messageType)
+//@   ensures t == f.Header.messageType
+//@   property C03
+
+// ===========================================================================
+// tracing.go -- span: spanid:8 parentid:8 traceid:8 traceflags:1 (C06)
+// ===========================================================================
+
+//@ func (s *Span) read(r *typed.ReadBuffer) (err error)
+//@   modifies s.spanID, s.parentID, s.traceID, s.flags, r.remaining, r.err
+//@   ensures err == r.err
+//@   ensures old(r.err) != nil ==> r.err == old(r.err) && r.remaining == old(r.remaining)
+//@   ensures old(r.err) == nil && len(old(r.remaining)) >= 25 ==> err == nil && r.remaining == old(r.remaining)[25:] &&
+//@             s.spanID == be64(old(r.remaining), 0) && s.parentID == be64(old(r.remaining), 8) &&
+//@             s.traceID == be64(old(r.remaining), 16) && s.flags == u8at(old(r.remaining), 24)
+//@   ensures old(r.err) == nil && len(old(r.remaining)) < 25 ==> err == typed.ErrEOF
+//@   property C03 C06
+
+//@ func (s *Span) write(w *typed.WriteBuffer) (err error)
+//@   modifies w.remaining, w.err, elems(w.remaining)
+//@   ensures typed.Suffix(w.remaining, old(w.remaining))
+//@   ensures err == w.err
+//@   ensures old(w.err) != nil ==> w.err == old(w.err) && w.remaining == old(w.remaining)
+//@   ensures old(w.err) == nil && len(old(w.remaining)) >= 25 ==> err == nil && w.remaining == old(w.remaining)[25:] &&
+//@             be64(old(w.remaining), 0) == s.spanID && be64(old(w.remaining), 8) == s.parentID &&
+//@             be64(old(w.remaining), 16) == s.traceID && u8at(old(w.remaining), 24) == s.flags
+//@   ensures old(w.err) == nil && len(old(w.remaining)) < 25 ==> err != nil
+//@   property C06
+
+// ===========================================================================
+// messages.go -- fixed-layout messages (C06, C03, C20)
+// error:  code:1 tracing:25 message~2
+// cancel: ttl:4 tracing:25 why~2
+// ===========================================================================
+
+//@ func (m *errorMessage) read(r *typed.ReadBuffer) (err error)
+//@   modifies m.errCode, m.tracing.spanID, m.tracing.parentID, m.tracing.traceID, m.tracing.flags, m.message, r.remaining, r.err
+//@   ensures err == r.err
+//@   ensures old(r.err) == nil && len(old(r.remaining)) >= 28 && len(old(r.remaining)) >= 28 + be16(old(r.remaining), 26) ==> err == nil &&
+//@             m.errCode == u8at(old(r.remaining), 0) && m.tracing.spanID == be64(old(r.remaining), 1) &&
+//@             m.tracing.parentID == be64(old(r.remaining), 9) && m.tracing.traceID == be64(old(r.remaining), 17) &&
+//@             m.tracing.flags == u8at(old(r.remaining), 25) && len(m.message) == be16(old(r.remaining), 26) &&
+//@             m.message == bytestr(old(r.remaining)[28:28+be16(old(r.remaining), 26)]) &&
+//@             r.remaining == old(r.remaining)[28+be16(old(r.remaining), 26):]
+//@   ensures old(r.err) == nil && (len(old(r.remaining)) < 28 || len(old(r.remaining)) < 28 + be16(old(r.remaining), 26)) ==> err == typed.ErrEOF
+//@   property C03 C06 C20
+
+// Over-long messages are rejected at encode time, never truncated.
+//@ func (m *errorMessage) write(w *typed.WriteBuffer) (err error)
+//@   modifies w.remaining, w.err, elems(w.remaining)
+//@   ensures typed.Suffix(w.remaining, old(w.remaining))
+//@   ensures err == w.err
+//@   ensures len(m.message) > 65535 ==> err != nil
+//@   ensures old(w.err) == nil && len(m.message) <= 65535 && len(old(w.remaining)) >= 28 + len(m.message) ==> err == nil &&
+//@             u8at(old(w.remaining), 0) == m.errCode && be64(old(w.remaining), 1) == m.tracing.spanID &&
+//@             be64(old(w.remaining), 9) == m.tracing.parentID && be64(old(w.remaining), 17) == m.tracing.traceID &&
+//@             u8at(old(w.remaining), 25) == m.tracing.flags && be16(old(w.remaining), 26) == len(m.message) &&
+//@             bytestr(old(w.remaining)[28:28+len(m.message)]) == m.message &&
+//@             w.remaining == old(w.remaining)[28+len(m.message):]
+//@   ensures old(w.err) == nil && len(old(w.remaining)) < 28 + len(m.message) ==> err != nil
+//@   property C06 C20
+
+//@ func (m *cancelMessage) read(r *typed.ReadBuffer) (err error)
+//@   modifies m.ttl, m.tracing.spanID, m.tracing.parentID, m.tracing.traceID, m.tracing.flags, m.message, r.remaining, r.err
+//@   ensures err == r.err
+//@   ensures old(r.err) == nil && len(old(r.remaining)) >= 31 && len(old(r.remaining)) >= 31 + be16(old(r.remaining), 29) ==> err == nil &&
+//@             m.ttl == be32(old(r.remaining), 0) && m.tracing.spanID == be64(old(r.remaining), 4) &&
+//@             m.tracing.parentID == be64(old(r.remaining), 12) && m.tracing.traceID == be64(old(r.remaining), 20) &&
+//@             m.tracing.flags == u8at(old(r.remaining), 28) && len(m.message) == be16(old(r.remaining), 29) &&
+//@             m.message == bytestr(old(r.remaining)[31:31+be16(old(r.remaining), 29)]) &&
+//@             r.remaining == old(r.remaining)[31+be16(old(r.remaining), 29):]
+//@   ensures old(r.err) == nil && (len(old(r.remaining)) < 31 || len(old(r.remaining)) < 31 + be16(old(r.remaining), 29)) ==> err == typed.ErrEOF
+//@   property C03 C06
+
+//@ func (m *cancelMessage) write(w *typed.WriteBuffer) (err error)
+//@   modifies w.remaining, w.err, elems(w.remaining)
+//@   ensures typed.Suffix(w.remaining, old(w.remaining))
+//@   ensures err == w.err
+//@   ensures len(m.message) > 65535 ==> err != nil
+//@   ensures old(w.err) == nil && len(m.message) <= 65535 && len(old(w.remaining)) >= 31 + len(m.message) ==> err == nil &&
+//@             be32(old(w.remaining), 0) == m.ttl && be64(old(w.remaining), 4) == m.tracing.spanID &&
+//@             be64(old(w.remaining), 12) == m.tracing.parentID && be64(old(w.remaining), 20) == m.tracing.traceID &&
+//@             u8at(old(w.remaining), 28) == m.tracing.flags && be16(old(w.remaining), 29) == len(m.message) &&
+//@             bytestr(old(w.remaining)[31:31+len(m.message)]) == m.message &&
+//@             w.remaining == old(w.remaining)[31+len(m.message):]
+//@   property C06
+
+// call req: flags:1(by caller) ttl:4 tracing:25 service~1 nh:1 (hk~1 hv~1){nh}
+//@ func (m *callReq) read(r *typed.ReadBuffer) (err error)
+//@   modifies m.TimeToLive, m.Tracing.spanID, m.Tracing.parentID, m.Tracing.traceID, m.Tracing.flags, m.Service, m.Headers, r.remaining, r.err
+//@   ensures err == r.err
+//@   ensures err == nil && old(r.err) == nil ==> len(old(r.remaining)) >= 31 &&
+//@             m.TimeToLive == be32(old(r.remaining), 0) * 1000000 && m.Tracing.spanID == be64(old(r.remaining), 4) &&
+//@             m.Tracing.parentID == be64(old(r.remaining), 12) && m.Tracing.traceID == be64(old(r.remaining), 20) &&
+//@             m.Tracing.flags == u8at(old(r.remaining), 28) && len(m.Service) == u8at(old(r.remaining), 29) &&
+//@             m.Service == bytestr(old(r.remaining)[30:30+u8at(old(r.remaining), 29)]) && m.Headers != nil
+//@   property C03 C06 C14
+
+//@ func (m *callReq) write(w *typed.WriteBuffer) (err error)
+//@   modifies w.remaining, w.err, elems(w.remaining)
+//@   ensures typed.Suffix(w.remaining, old(w.remaining))
+//@   ensures err == w.err
+//@   ensures len(m.Service) > 255 ==> err != nil
+//@   ensures err == nil && old(w.err) == nil ==> len(old(w.remaining)) >= 31 + len(m.Service) &&
+//@             be32(old(w.remaining), 0) == uint32(m.TimeToLive / 1000000) && be64(old(w.remaining), 4) == m.Tracing.spanID &&
+//@             be64(old(w.remaining), 12) == m.Tracing.parentID && be64(old(w.remaining), 20) == m.Tracing.traceID &&
+//@             u8at(old(w.remaining), 28) == m.Tracing.flags && u8at(old(w.remaining), 29) == len(m.Service) &&
+//@             u8at(old(w.remaining), 30 + len(m.Service)) == uint8(len(m.Headers))
+//@   property C06 C14
+
+// call res: flags:1(by caller) code:1 tracing:25 nh:1 (hk~1 hv~1){nh}
+//@ func (m *callRes) read(r *typed.ReadBuffer) (err error)
+//@   modifies m.ResponseCode, m.Tracing.spanID, m.Tracing.parentID, m.Tracing.traceID, m.Tracing.flags, m.Headers, r.remaining, r.err
+//@   ensures err == r.err
+//@   ensures err == nil && old(r.err) == nil ==> len(old(r.remaining)) >= 27 &&
+//@             m.ResponseCode == u8at(old(r.remaining), 0) && m.Tracing.spanID == be64(old(r.remaining), 1) &&
+//@             m.Tracing.parentID == be64(old(r.remaining), 9) && m.Tracing.traceID == be64(old(r.remaining), 17) &&
+//@             m.Tracing.flags == u8at(old(r.remaining), 25) && m.Headers != nil
+//@   property C03 C06 C20
+
+//@ func (m *callRes) write(w *typed.WriteBuffer) (err error)
+//@   modifies w.remaining, w.err, elems(w.remaining)
+//@   ensures typed.Suffix(w.remaining, old(w.remaining))
+//@   ensures err == w.err
+//@   ensures err == nil && old(w.err) == nil ==> len(old(w.remaining)) >= 27 &&
+//@             u8at(old(w.remaining), 0) == m.ResponseCode && be64(old(w.remaining), 1) == m.Tracing.spanID &&
+//@             be64(old(w.remaining), 9) == m.Tracing.parentID && be64(old(w.remaining), 17) == m.Tracing.traceID &&
+//@             u8at(old(w.remaining), 25) == m.Tracing.flags && u8at(old(w.remaining), 26) == uint8(len(m.Headers))
+//@   property C06 C20
+
+// transport headers: nh:1 (hk~1 hv~1){nh}; decoding is total (no panic) and
+// consumes only what the ReadBuffer holds.
+//@ func (ch transportHeaders) read(r *typed.ReadBuffer)
+//@   requires ch != nil
+//@   modifies ch, r.remaining, r.err
+//@   ensures old(r.err) != nil ==> r.err == old(r.err)
+//@   ensures old(r.err) == nil && len(old(r.remaining)) < 1 ==> r.err != nil
+//@   ensures typed.Suffix(r.remaining, old(r.remaining))
+//@   loop 0 invariant typed.Suffix(r.remaining, old(r.remaining))
+//@   loop 0 invariant old(r.err) == nil && len(old(r.remaining)) < 1 ==> r.err != nil
+//@   loop 0 invariant old(r.err) != nil ==> r.err == old(r.err)
+//@   property C03 C06
+
+//@ func (ch transportHeaders) write(w *typed.WriteBuffer)
+//@   modifies w.remaining, w.err, elems(w.remaining)
+//@   ensures typed.Suffix(w.remaining, old(w.remaining))
+//@   ensures old(w.err) == nil && w.err == nil ==> len(old(w.remaining)) >= 1 && u8at(old(w.remaining), 0) == uint8(len(ch))
+//@   ensures old(w.err) != nil ==> w.err == old(w.err)
+//@   loop 0 invariant old(w.err) != nil ==> w.err == old(w.err)
+//@   loop 0 invariant typed.Suffix(w.remaining, old(w.remaining))
+//@   loop 0 invariant old(w.err) == nil && w.err == nil ==> len(old(w.remaining)) >= 1 && u8at(old(w.remaining), 0) == uint8(len(ch)) && off(w.remaining) >= off(old(w.remaining)) + 1
+//@   property C06
+
+// init: version:2 nh:2 (key~2 value~2){nh}
+//@ func (m *initMessage) read(r *typed.ReadBuffer) (err error)
+//@   modifies m.Version, m.initParams, r.remaining, r.err
+//@   ensures err == r.err
+//@   ensures err == nil && old(r.err) == nil ==> len(old(r.remaining)) >= 4 && m.Version == be16(old(r.remaining), 0) && m.initParams != nil
+//@   loop 0 invariant old(r.err) != nil ==> r.err == old(r.err)
+//@   loop 0 invariant typed.Suffix(r.remaining, old(r.remaining))
+//@   loop 0 invariant m.Version == be16(old(r.remaining), 0) || len(old(r.remaining)) < 2 || old(r.err) != nil
+//@   loop 0 invariant m.initParams != nil
+//@   loop 0 invariant old(r.err) == nil && r.err == nil ==> len(old(r.remaining)) >= 4
+//@   property C03 C06 C13
+
+//@ func (m *initMessage) write(w *typed.WriteBuffer) (err error)
+//@   modifies w.remaining, w.err, elems(w.remaining)
+//@   ensures typed.Suffix(w.remaining, old(w.remaining))
+//@   ensures err == w.err
+//@   ensures err == nil && old(w.err) == nil ==> len(old(w.remaining)) >= 4 && be16(old(w.remaining), 0) == m.Version &&
+//@             be16(old(w.remaining), 2) == uint16(len(m.initParams))
+//@   loop 0 invariant old(w.err) == nil && w.err == nil ==> len(old(w.remaining)) >= 4 && be16(old(w.remaining), 0) == m.Version &&
+//@             be16(old(w.remaining), 2) == uint16(len(m.initParams)) && off(w.remaining) >= off(old(w.remaining)) + 4
+//@   loop 0 invariant typed.Suffix(w.remaining, old(w.remaining))
+//@   property C06 C13
